@@ -279,7 +279,7 @@ def IntRel (s : List Nat) (ip ip' : IntPart) : Prop :=
   ip'.isPrefix = ip.isPrefix ∧ ip'.start = ip.start ∧ ip.start.slc = s ∧ Sim s ip.byte ip'.byte ∧
   ip'.mantissa = ip.mantissa ∧ ip'.nDigits = ip.nDigits ∧ ip'.integerDigits = ip.integerDigits ∧
   CountLB ip.byte ip.nDigits ∧ ip.nDigits ≤ ip'.byte.index ∧
-  ip.integerDigits = (s.drop ip.start.index).take ip.nDigits
+  ip.integerDigits = (s.drop ip.start.index).take ip.nDigits ∧ ip.nDigits ≤ (s.drop ip.start.index).length
 
 theorem integerPhase_prefix_error (c : Cfg) (b : Bytes) (e : Err) (h : prefixPhase c b = .error e) :
     integerPhase c b = .error e := by
@@ -310,9 +310,10 @@ theorem int_rel (c c' : Cfg) (hS : SepClass c) (hP : PlainClass c') (hC : Counte
       split
       · simp [RelE]
       · simp only [RelE, IntRel, Sim, adv_slc, adv_index, he1, he2, hsl.1, true_and, and_true]
-        refine ⟨?_, by omega⟩
-        simp only [CountLB, adv, hS.format, if_true]
-        omega
+        refine ⟨?_, by omega, ?_⟩
+        · simp only [CountLB, adv, hS.format, if_true]
+          omega
+        · exact digitsPrefix_length_le _ _
 
 theorem adv_count (c : Cfg) (k : Comp) (n : Nat) (b : Bytes) (hf : c.feats.format = true) (hk : k ≠ .special) :
     (adv c k n b).ic + (adv c k n b).fc + (adv c k n b).ec = b.ic + b.fc + b.ec + n := by
@@ -343,7 +344,7 @@ def FracRel (s : List Nat) (L : Nat) (fp fp' : FracPart) : Prop :=
   Sim s fp.byte fp'.byte ∧ fp'.mantissa = fp.mantissa ∧ fp'.nAfterDot = fp.nAfterDot ∧ fp'.exponent = fp.exponent ∧
   fp'.fraction = fp.fraction ∧ fp'.hasDecimal = fp.hasDecimal ∧
   CountLB fp.byte (L + fp.nAfterDot) ∧ L + fp.nAfterDot ≤ fp'.byte.index ∧
-  (∀ fd, fp.fraction = some fd → ∀ x ∈ fd, x ∈ s)
+  (∀ fd, fp.fraction = some fd → ∀ x ∈ fd, x ∈ s) ∧ (fp.fraction = none → fp.nAfterDot = 0)
 
 theorem frac_rel (c c' : Cfg) (hS : SepClass c) (hP : PlainClass c') (hC : Counterpart c c') (s : List Nat)
     (hn : NoSep c s) (o : POpts) (bC bP : Bytes) (hsim : Sim s bC bP) (m L : Nat) (hL : CountLB bC L)
@@ -387,14 +388,14 @@ theorem frac_rel (c c' : Cfg) (hS : SepClass c) (hP : PlainClass c') (hC : Count
     · have hidx := hsim.2.2
       simp only [hz, Bool.false_eq_true, if_false, RelE, FracRel, Sim, adv_slc, adv_index, true_and, and_true,
         Nat.add_sub_cancel_left, e1, e2]
-      refine ⟨by omega, ?_, by omega, ?_⟩
+      refine ⟨by omega, ?_, by omega, ?_, (by intro h; cases h)⟩
       · simp only [CountLB, adv_count c .fraction _ _ hS.format (by decide)] at hL ⊢; omega
       · intro fd hfd x hx
         simp only [Option.some.injEq] at hfd
         subst hfd
         exact List.mem_of_mem_drop (List.mem_of_mem_take hx)
   · simp only [hdp, Bool.false_eq_true, if_false, pure, Except.pure, RelE, FracRel, and_true, true_and]
-    exact ⟨hsim, hL, hL', by intro fd h; cases h⟩
+    exact ⟨hsim, hL, hL', (by intro fd h; cases h), (by intro _; trivial)⟩
 
 theorem parseSign_sim (c c' : Cfg) (hd : c.debug = false) (hd' : c'.debug = false) (s : List Nat) (np rq : Bool)
     (ip ms : String) (b b' : Bytes) (hsim : Sim s b b') :
